@@ -659,6 +659,9 @@ func (c *checkCtx) writeEvidence() {
 		"violations":  len(c.violations),
 	}
 	b, _ := json.MarshalIndent(ev, "", " ")
+	if !regexp.MustCompile(`^C[0-9]{2}$`).MatchString(c.id) {
+		return // development plans (TVX) are no properties: no evidence file
+	}
 	evdir := filepath.Join(root, "evidence")
 	if os.Getenv("VCHECK_REPO") != "" {
 		evdir = filepath.Join(root, ".work", "evidence-alt")
